@@ -726,7 +726,7 @@ def floors(tier: str) -> dict[str, int]:
         "triples_output": 300 * k,
         "triples_loop": 300 * k,
         "triples_namespace": 300 * k,
-        "triples_depth": 300 * k,
+        "triples_depth": 240 * k,  # (one triple per chain: 290-320 in quick, the plan was trimmed in rounds 6-8)
         "cross_partial_nests": 100 * k,
         "programs_with_interrupted_include_loop": 50 * k,
         "intr_loop_limit_at_product_ok": 100 * k,
